@@ -4,6 +4,7 @@ Credential-defect matrix x protocol x verifier role; the verdict is on the *veri
 tls_do_handshake (must not return 1).  Every defect has a positive control (same scenario without the
 defect must complete on both sides) so a harness that breaks every handshake cannot pass.
 """
+import ctypes
 import time
 
 from ..ref import sm2 as R
@@ -21,6 +22,7 @@ ASSUMPTIONS = ['vf.ref.x509 + vf.ref.sm2 build valid certificates (the positive 
 STALL_S = 300
 
 KU = X.KU_DIGITAL_SIGNATURE
+SHIM_T13 = True      # the interposed tls13_record_encrypt alters the CertificateVerify of a TLS 1.3 presenter
 
 # defects of the certificate chain presented to the verifier
 CHAIN_DEFECTS = ['untrusted-root', 'leaf-expired', 'leaf-not-yet-valid', 'intermediate-expired', 'issuer-no-basic-constraints',
@@ -29,7 +31,7 @@ CHAIN_DEFECTS = ['untrusted-root', 'leaf-expired', 'leaf-not-yet-valid', 'interm
                  'unknown-critical-extension', 'upper-issuer-no-basic-constraints', 'upper-issuer-is-end-entity',
                  'untrusted-root-sent-in-chain', 'forged-root-same-name-sent-in-chain', 'forged-root-same-name-and-serial-sent-in-chain',
                  'forged-intermediate-same-name-and-serial-as-anchor']
-KEY_DEFECTS = ['sign-key-mismatch']
+KEY_DEFECTS = ['sign-key-mismatch', 'sign-key-mismatch+other-signature-scheme']
 CLIENT_ONLY = ['no-client-certificate']
 TLCP_ONLY = ['enc-key-mismatch', 'enc-cert-untrusted']
 
@@ -50,6 +52,11 @@ def plan(tier, seed):
                     units.append({'kind': 'case', 'proto': proto, 'role': 'client-verifies-server', 'defect': d, 'rep': rep,
                                   'weight': 2})
     return units
+
+
+def worker_init(ctx):
+    ctx.shim.vf_t13_set_real(ctypes.c_void_p(ctx.lib.addr('tls13_record_encrypt')))
+    ctx.shim.vf_t13_plan(-1, 0, 0)
 
 
 def build_chain(tag, defect, leaf_usage=KU, leaf_cn='leaf'):
@@ -163,7 +170,7 @@ def scenario(ctx, u, defect, tag):
         c_chain, c_priv, c_trust_for_server = build_chain(tag + '-c', cli_defect, leaf_cn='client')
     creds = T.CustomCreds(ctx, tag, s_chain, s_priv, enc_priv, s_trust, c_chain, c_priv, c_trust_for_server)
     L = ctx.L
-    if defect == 'sign-key-mismatch':
+    if defect in ('sign-key-mismatch', 'sign-key-mismatch+other-signature-scheme'):
         # the presenter does not hold the certificate's private key: an attacker is not bound by the ctx API's check
         other = X.priv_from_seed(tag, 'attacker-key')
         kb, r = U.key_from_private(ctx, other)
@@ -185,7 +192,7 @@ def scenario(ctx, u, defect, tag):
     return creds, hooks, mutual
 
 
-def run_case(ctx, u, defect, tag, seed):
+def run_case(ctx, u, defect, tag, seed, scheme=None):
     proto = T.PROTOS[u['proto']]
     creds, hooks, mutual = scenario(ctx, u, defect, tag)
     has_cert = None
@@ -196,9 +203,27 @@ def run_case(ctx, u, defect, tag, seed):
     except AssertionError as e:
         return {'config_refused': str(e)}
     ctx.begin(['case', u['proto'], u['role'], defect])
-    res = T.run_handshake(ctx, srv_ctx, cli_ctx, seed=seed, use_proxy=True, srv_hook=hooks.get('srv'), cli_hook=hooks.get('cli'))
+    sh = ctx.shim
+    presenter = 'srv' if u['role'] == 'client-verifies-server' else 'cli'
+
+    def with_scheme(side):
+        base = hooks.get(side)
+
+        def hook(ep):
+            # the presenter itself writes another SignatureScheme into its CertificateVerify (TLS 1.3) / ServerKeyExchange
+            # (TLS 1.2) and hashes that message into its own transcript: a consistently lying peer, not a wire change
+            sh.vf_scheme_override(scheme if (scheme is not None and side == presenter) else -1)
+            if base:
+                base(ep)
+        return hook
+    kw = {'srv_hook': with_scheme('srv'), 'cli_hook': with_scheme('cli')}
+    fault = None
+    res = T.run_handshake(ctx, srv_ctx, cli_ctx, seed=seed, use_proxy=True, fault=fault, **kw)
     out = {'server_ret': res['server'].ret, 'client_ret': res['client'].ret, 'hung': res['hung'],
            'records': [(i, d, r[0], len(r)) for i, d, r in res['proxy'].records]}
+    if scheme is not None:
+        ep = res['server'] if presenter == 'srv' else res['client']
+        out['alteration_applied'] = bool(getattr(ep, 'scheme_applied', 0))
     T.close_pair(res)
     srv_ctx.free()
     cli_ctx.free()
@@ -216,6 +241,30 @@ def u_case(ctx, u):
     det = dict(proto=u['proto'], role=u['role'], defect=defect)
     if not ctx.check(ctl.get('server_ret') == 1 and ctl.get('client_ret') == 1, 'control:honest-scenario-failed:%s:%s' % (u['proto'], u['role']),
                      control=ctl, **det):
+        return
+    if defect == 'sign-key-mismatch+other-signature-scheme':
+        # the signature-algorithm field of the presenter's proof of possession (TLS 1.3 CertificateVerify, TLS 1.2
+        # ServerKeyExchange) names another scheme than sm2sig_sm3 (0x0708), and the key is not the certificate's
+        applicable = (u['proto'] == 'tls13') or (u['proto'] == 'tls12' and u['role'] == 'client-verifies-server')
+        if not applicable:
+            ctx.ok()
+            ctx.stat('scheme_variant_not_applicable')
+            ctx.nontrivial(u['proto'], u['role'], defect, 'n/a')
+            return
+        for scheme in (0x0403, 0x0807, 0x0804, 0x0709, 0x0000):     # ecdsa_secp256r1_sha256, ed25519, rsa_pss_rsae_sha256, unassigned, zero
+            out = run_case(ctx, u, defect, tag + '-def', seed, scheme=scheme)
+            if 'not_applicable' in out or 'config_refused' in out:
+                ctx.stat('scheme_variant_not_applicable')
+                continue
+            if out['hung']:
+                ctx.violation('harness:handshake-thread-hung', **det)
+                continue
+            if not out.get('alteration_applied'):
+                ctx.stat('scheme_alteration_not_applied')
+                continue
+            ctx.check(out[verifier + '_ret'] != 1, 'auth-bypass:%s:%s:%s' % (defect, u['proto'], u['role']), result=out, scheme=hex(scheme), **det)
+            ctx.nontrivial(u['proto'], u['role'], defect, scheme, u.get('rep'))
+            ctx.stat('defect_cases')
         return
     out = run_case(ctx, u, defect, tag + '-def', seed)
     if 'config_refused' in out:
